@@ -199,6 +199,8 @@ class ServerSession:
 
             def get_compression_options(self):
                 return copts
+        if handler_mixin is not None:
+            H = type("H", (handler_mixin, H), {"rec": rec})        # the mixin's methods win; it may use self.rec
         self.app = web.Application([("/ws", H)], **(settings or {}))
         self.conn = ServerConn(world, self.app)
         req = (b"GET /ws HTTP/1.1\r\nHost: example.com\r\nUpgrade: websocket\r\nConnection: Upgrade\r\n"
